@@ -29,7 +29,7 @@ async fn main() {
         let mode = if r.below(2) == 0 { "new" } else { "add" };
         let mut files = vec![]; let mut enc_files = vec![]; let mut used = std::collections::HashSet::new();
         for fi in 0..nf {
-            let (ai, ai_s): (Option<PathBuf>, String) = if r.below(6) == 0 { (None, "-".into()) } else { let d = r.pick(&dirs); let p = if d.is_empty() { origin.clone() } else { origin.join(d) }; (Some(p.clone()), p.display().to_string()) };
+            let (ai, ai_s): (Option<PathBuf>, String) = if r.below(6) == 0 { (None, "-".into()) } else { let d = r.pick(&dirs); let p = if r.below(10) == 0 { tmp.join(r.pick(&["elsewhere", "elsewhere/a", "o2"])) } else if d.is_empty() { origin.clone() } else { origin.join(d) }; (Some(p.clone()), p.display().to_string()) };
             // files of one directory are applied in listed order (F13 repaired): same-directory files are wanted
             let _ = used.insert(ai_s.clone());
             let k = r.below(4) as usize + 1;
@@ -49,7 +49,8 @@ async fn main() {
         let mut probes = vec![]; let mut res = vec![];
         for _ in 0..6 {
             let depth = r.below(4) + 1;
-            let mut p = if r.below(6) == 0 { tmp.join("elsewhere") } else { origin.clone() };
+            // outside the origin too, in directories whose names extend the origin's or another ignore file's directory name
+            let mut p = if r.below(5) == 0 { tmp.join(r.pick(&["elsewhere", "elsewhere2", "o2", "o.d", "o2/a"])) } else { origin.clone() };
             for _ in 0..depth { p.push(r.pick(&names)); }
             let is_dir = r.below(3) == 0;
             probes.push(format!("{}\x1e{}", p.display(), if is_dir {1} else {0}));
